@@ -3,9 +3,12 @@ import numpy as np
 from native import indic
 
 
-def check(name):
-    d = check_at(name, 240, (100, 240, 300, 500))
+def check(name, small_window=True):
+    d = check_at(name, 240, (100, 239, 240, 241, 300, 500))
     if d:
+        return d
+    d = check_period_boundary(name)
+    if d or not small_window:
         return d
     # the bound the symbolic check used: warm-up window configured to 32 candles, 44 candles of input
     from jesse.config import config
@@ -15,6 +18,46 @@ def check(name):
         return check_at(name, 32, (32, 44))
     finally:
         config['env']['data']['warmup_candles_num'] = old
+
+
+def _last_index(name, field, kwargs):
+    """the documented exemption: the extrema detector reports the flags of the entry order+1 from the end"""
+    if name == 'minmax' and field in ('is_min', 'is_max'):
+        import inspect
+        order = kwargs.get('order', inspect.signature(indic.get(name)).parameters['order'].default)
+        return -(order + 1)
+    return -1
+
+
+def check_period_boundary(name):
+    """input lengths just below, at and just above the period (the statement quantifies over non-default periods)"""
+    import inspect
+    import os
+    os.environ.setdefault('PYTEST_CURRENT_TEST', 'verif-replay')
+    f = indic.get(name)
+    params = inspect.signature(f).parameters
+    if 'period' not in params or not isinstance(params['period'].default, int):
+        return None
+    for P in (5, 14):
+        for n in (P - 1, P, P + 1, 2 * P):
+            if n < 2:
+                continue
+            c = indic.candles(n, 5, 'random')
+            try:
+                seq = indic.fields(f(c, period=P, sequential=True))
+                single = indic.fields(f(c, period=P, sequential=False))
+            except Exception:
+                continue
+            for (fn, sv), (_, nv) in zip(seq, single):
+                if sv is None or np.ndim(sv) == 0:
+                    continue
+                sv = np.asarray(sv, dtype=float)
+                if len(sv) != n:
+                    return f'{name}(period={P}, field {fn}): sequential result has {len(sv)} entries for {n} candles'
+                nvv = np.nan if nv is None else nv
+                if not indic.close_enough(sv[-1:], np.asarray([nvv], dtype=float)):
+                    return f'{name}(period={P}, field {fn}): last sequential entry {sv[-1]} != non-sequential result {nv} on {n} candles'
+    return None
 
 
 def check_at(name, W, ns):
@@ -35,8 +78,9 @@ def check_at(name, W, ns):
                 sv = np.asarray(sv, dtype=float)
                 if len(sv) != n:
                     return f'{name}(field {fn}): sequential result has {len(sv)} entries for {n} candles'
-                if n <= W and nv is not None and not indic.close_enough(sv[-1:], np.asarray([nv], dtype=float)):
-                    return f'{name}(field {fn}): last sequential entry {sv[-1]} != non-sequential result {nv} ({n} candles)'
+                li = _last_index(name, fn, {})
+                if n <= W and nv is not None and not indic.close_enough(sv[li:][:1], np.asarray([nv], dtype=float)):
+                    return f'{name}(field {fn}): sequential entry [{li}] = {sv[li]} != non-sequential result {nv} ({n} candles)'
             if n > W:
                 try:
                     tail = indic.fields(f(c[-W:], sequential=True))
@@ -45,7 +89,8 @@ def check_at(name, W, ns):
                 for (fn, tv), (_, nv) in zip(tail, single):
                     if tv is None or nv is None or np.ndim(tv) == 0:
                         continue
-                    if not indic.close_enough(np.asarray(tv, dtype=float)[-1:], np.asarray([nv], dtype=float)):
+                    li = _last_index(name, fn, {})
+                    if not indic.close_enough(np.asarray(tv, dtype=float)[li:][:1], np.asarray([nv], dtype=float)):
                         return (f'{name}(field {fn}): non-sequential result on {n} candles is {nv} but the sequential result on the '
                                 f'trailing {W} candles (the configured warm-up window) ends with {np.asarray(tv)[-1]}')
     return None
@@ -53,8 +98,16 @@ def check_at(name, W, ns):
 
 def replay(pl):
     name = (pl.get('task') or pl['obligation'].split('.')[0])
+    small = True
+    for pre in ('congruence.', 'boundary.'):
+        if name.startswith(pre):
+            name = name[len(pre):]
+            # stand-in of the unbounded layer: the statement's own window (240) only; the 32-candle window is the bound of
+            # the symbolic layer and is replayed for its counterexamples only (an indicator needing more than 32 candles
+            # of history is not in violation of the statement)
+            small = False
     try:
-        d = check(name)
+        d = check(name, small)
     except Exception as ex:
         return {'confirmed': False, 'error': f'{type(ex).__name__}: {ex}'}
     return {'confirmed': bool(d), 'detail': d or f'{name}: sequential and single-value results agree on the probed inputs'}
